@@ -46,16 +46,17 @@ def build_libs():
 # ---------------------------------------------------------------- dl: generator-side shape tracking
 # world of the harness (must agree with d_world in ocaml/own_driver.ml and with dl_driver.cpp):
 #   file 0 = libvdl_a.so, 1 = libvdl_b.so, 2 = the program itself, >= 3 missing
-#   symbol 0 = vdl_f (a, b), 1 = vdl_g (a, b), 2 = vdl_only_a (a), 3 = vdl_self (program), >= 4 missing
+#   symbol 0 = vdl_f (a, b), 1 = vdl_g (a, b and — a different function — the program), 2 = vdl_only_a (a),
+#   3 = vdl_self (program), >= 4 missing
 def lib_exists(f):
     return f < 3
 
 
 def sym_exists(lib, s):
-    return (lib < 2 and s < 2) or (lib == 0 and s == 2) or (lib == 2 and s == 3)
+    return (lib < 2 and s < 2) or (lib == 0 and s == 2) or (lib == 2 and s in (1, 3))
 
 
-def d_alphabet(P, files, syms, xs=(5,), scoped=None, reads=(0, 1, 2)):
+def d_alphabet(P, files, syms, xs=(5,), scoped=None, reads=(0, 1, 2), cats="all"):
     """op/ld read the diagnostic in the handler; oq/lq ("quiet") do not — only offered where the operation fails;
     sc/sq: open + load with the dl object inside the try block (scratch slot t = i+1); rx.k: late read of exception k"""
     ops = []
@@ -68,7 +69,12 @@ def d_alphabet(P, files, syms, xs=(5,), scoped=None, reads=(0, 1, 2)):
         for j in range(P):
             if i != j:
                 for s in syms:
-                    ops.append(("ld", i, j, s))
+                    ops.append(("ld", i, j, s))       # load on a named lvalue
+                    if cats == "all" or (cats == "some" and s == syms[0]):
+                        ops.append(("lm", i, j, s))       # load on std::move(named)
+                        t = [x for x in range(P) if x not in (i, j)]
+                        if t:
+                            ops.append(("lt", i, j, t[0], s))   # load on a temporary copy (scratch slot t)
                     if s >= 4:
                         ops.append(("lq", i, j, s))
                 ops += [("gt", i, j), ("cp", i, j), ("mv", i, j), ("sw", i, j)]
@@ -80,6 +86,8 @@ def d_alphabet(P, files, syms, xs=(5,), scoped=None, reads=(0, 1, 2)):
     for i in range(P):
         for (f, s) in scoped:
             ops += [("sc", i, (i + 1) % P, f, s), ("sq", i, (i + 1) % P, f, s)]
+            if cats != "none":
+                ops.append(("tc", i, (i + 1) % P, f, s))
     for k in reads:
         ops.append(("rx", k))
     for i in range(P):
@@ -96,11 +104,14 @@ def d_applicable(st, op):
     n = len(st)
     if k in ("op", "oq"):
         return op[1] < n and st[op[1]] is None
-    if k in ("sc", "sq"):
+    if k in ("sc", "sq", "tc", "tq"):
         return op[1] < n and op[2] < n and op[1] != op[2] and st[op[1]] is None and st[op[2]] is None
+    if k == "lt":
+        return (op[1] < n and op[2] < n and op[3] < n and op[1] != op[3] and st[op[1]] is None and st[op[3]] is None
+                and st[op[2]] is not None and st[op[2]][0] == "L" and st[op[2]][1] is not None)
     if k == "rx":
         return True
-    if k in ("ld", "lq"):
+    if k in ("ld", "lq", "lm"):
         return op[1] < n and op[2] < n and st[op[1]] is None and st[op[2]] is not None and st[op[2]][0] == "L" and st[op[2]][1] is not None
     if k == "gt":
         return op[1] < n and op[2] < n and st[op[1]] is None and st[op[2]] is not None and st[op[2]][0] == "L"
@@ -123,10 +134,14 @@ def d_shape_step(st, op):
     if k in ("op", "oq"):
         if lib_exists(op[2]):
             st[op[1]] = ("L", op[2])
-    elif k in ("sc", "sq"):
+    elif k in ("sc", "sq", "tc", "tq"):
         if lib_exists(op[3]) and sym_exists(op[3], op[4]):
             st[op[1]] = ("S", op[3])
-    elif k in ("ld", "lq"):
+    elif k == "lt":
+        lib = st[op[2]][1]
+        if sym_exists(lib, op[4]):
+            st[op[1]] = ("S", lib)
+    elif k in ("ld", "lq", "lm"):
         lib = st[op[2]][1]
         if sym_exists(lib, op[3]):
             st[op[1]] = ("S", lib)
@@ -145,8 +160,8 @@ def d_shape_step(st, op):
     return tuple(st)
 
 
-def d_exhaustive(P, files, syms, depth, scoped=(), reads=()):
-    ops = d_alphabet(P, files, syms, scoped=list(scoped), reads=reads)
+def d_exhaustive(P, files, syms, depth, scoped=(), reads=(), cats="none"):
+    ops = d_alphabet(P, files, syms, scoped=list(scoped), reads=reads, cats=cats)
 
     def rec(st, d, acc):
         if d == 0:
@@ -156,6 +171,19 @@ def d_exhaustive(P, files, syms, depth, scoped=(), reads=()):
             if d_applicable(st, o):
                 yield from rec(d_shape_step(st, o), d - 1, acc + [o])
     yield from rec((None,) * P, depth, [])
+
+
+def d_pick(rng, alpha, st, want=None):
+    """a random applicable operation (of one of the wanted kinds if any is applicable): rejection sampling, then a scan"""
+    for _ in range(40):
+        o = rng.choice(alpha)
+        if (want is None or o[0] in want) and d_applicable(st, o):
+            return o
+    cand = [o for o in alpha if d_applicable(st, o)]
+    if want is not None:
+        c2 = [o for o in cand if o[0] in want]
+        cand = c2 or cand
+    return rng.choice(cand)
 
 
 def d_case(P, seq):
@@ -212,13 +240,19 @@ class C19(Check):
                   "readable through the public API: the driver's 'S<h>' is bookkeeping (get() of the library object at load time, "
                   "carried along copies/assignments as value semantics demands) — a symbol that owns the wrong library shows up in "
                   "the per-handle dlclose counts and in 'unmapped' calls, which are observed directly. "
+                  "The model has ONE load (on the handle); the value category of the library object load() is called on — named "
+                  "lvalue, std::move(named), a temporary copy, a temporary built from the file name — is a driver-side dimension "
+                  "(load() is not const, so a const library object cannot load). Symbol vdl_g exists in the libraries AND, as a "
+                  "different function, in the -rdynamic host program, so a look-up that searches the global scope instead of the "
+                  "library is seen in the call result; dlsym(NULL, ...) is also counted by the wrapper. "
                   "A symbol whose address is legally NULL is not exercised. The correspondence is bounded-exhaustive + sampled, "
                   "not proved.")
     rule = ("env: every sequence of depth 3 (thorough: 4) over {setenv, unsetenv, get with default, get with the defaulted default, "
             "get without default} x 2 names x values/defaults {'', 'x'}, then random sequences with names and values over arbitrary "
             "non-NUL bytes (values also empty and up to 20 000 bytes; thorough 200 000), defaults equal to / different from the "
             "value; dl: every applicable sequence of depth 3 (thorough: also depth 4 without the scoped/quiet/read operations) over {open a / b / missing, load existing / only-in-a / "
-            "missing symbol, get, copy-construct, move-construct, copy-assign, move-assign (both also onto itself), swap, destroy, "
+            "missing symbol — each on a named library object, on std::move(named), on a temporary copy and on a temporary built from the "
+            "file name —, get, copy-construct, move-construct, copy-assign, move-assign (both also onto itself), swap, destroy, "
             "call, stale error} on a pool of 3 owners, then random sequences of length <= 10 (thorough <= 16) on a pool of 4 that "
             "also open the program itself, biased towards symbols outliving their library object, and structured sequences: two "
             "library objects (same or different files) with a symbol each, then assignments / swaps between the existing objects, "
@@ -296,6 +330,9 @@ class C19(Check):
         # ---- dl, exhaustive applicable-only
         for seq in d_exhaustive(3, (0, 1, 5), (0, 2, 7), 3, scoped=[(0, 7), (5, 0)], reads=(0,)):
             yield d_case(3, seq), "dl-exh"
+        # every value category of the library object load() is called on, followed by one more operation (call / destroy / ...)
+        for seq in d_exhaustive(3, (0, 1, 2), (0, 1, 3, 7), 3 if not quick else 2, scoped=[(0, 0), (0, 1), (1, 1), (2, 1), (0, 7)], cats="all"):
+            yield d_case(3, seq), "dl-exh-load-categories"
         if not quick:
             for seq in d_exhaustive(3, (0, 1, 5), (0, 2, 7), 4):
                 yield d_case(3, seq), "dl-exh4"
@@ -307,16 +344,14 @@ class C19(Check):
             seq = []
             for _ in range(L):
                 if rng.random() < 0.92:
-                    cand = [o for o in alpha if d_applicable(st, o)]
                     # prefer loads/copies while a library object exists, and dropping library objects that still have dependants
                     r = rng.random()
                     if r < 0.35:
-                        c2 = [o for o in cand if o[0] in ("ld", "cp", "gt", "mv", "as", "ma", "sw")]
-                        cand = c2 or cand
+                        o = d_pick(rng, alpha, st, ("ld", "lm", "lt", "tc", "cp", "gt", "mv", "as", "ma", "sw"))
                     elif r < 0.55:
-                        c2 = [o for o in cand if o[0] == "dr" and st[o[1]][0] == "L"] + [o for o in cand if o[0] in ("cl", "rx")]
-                        cand = c2 or cand
-                    o = rng.choice(cand)
+                        o = d_pick(rng, alpha, st, ("dr", "cl", "rx"))
+                    else:
+                        o = d_pick(rng, alpha, st)
                 else:
                     o = rng.choice(alpha)
                 seq.append(o)
@@ -333,7 +368,6 @@ class C19(Check):
             for o in seq:
                 st = d_shape_step(st, o)
             for _ in range(rng.randint(3, 8)):
-                cand = [o for o in alpha5 if d_applicable(st, o)]
                 r = rng.random()
                 if r < 0.4:
                     want = ("as", "ma", "sw")
@@ -342,9 +376,8 @@ class C19(Check):
                 elif r < 0.9:
                     want = ("cl",)
                 else:
-                    want = ("cp", "mv", "gt", "ld", "op", "st")
-                c2 = [o for o in cand if o[0] in want]
-                o = rng.choice(c2 or cand)
+                    want = ("cp", "mv", "gt", "ld", "lm", "op", "st")
+                o = d_pick(rng, alpha5, st, want)
                 seq.append(o)
                 st = d_shape_step(st, o)
             for i in range(5):
@@ -385,9 +418,7 @@ class C19(Check):
                         nexc += 1
                 # loader activity in between: successful open / load / call / close
                 for _ in range(rng.randint(0, 3)):
-                    cand = [o for o in alpha if d_applicable(st, o) and o[0] in ("op", "ld", "cl", "dr", "sc", "cp")]
-                    if cand:
-                        push(rng.choice(cand))
+                    push(d_pick(rng, alpha, st, ("op", "ld", "lm", "cl", "dr", "sc", "tc", "cp")))
             ks = list(range(nexc + 1))
             rng.shuffle(ks)
             for k in ks:
